@@ -2969,12 +2969,8 @@ CaseExtRm:
           goto EmitVexEvexR;
         }
 
-        // Form 'k, k'.
-        if (!Support::test(options, InstOptions::kX86_ModMR))
-          goto EmitVexEvexR;
-
-        opcode.add(1);
-        std::swap(op_reg, rb_reg);
+        // Form 'k, k' - only the load opcode (90 /r) has a register form, the store opcode (91 /r) is memory-only, so
+        // `InstOptions::kX86_ModMR` cannot select an alternative encoding here.
         goto EmitVexEvexR;
       }
 
